@@ -6,6 +6,8 @@ import SharkVerif.Lemmas.MOO
 import SharkVerif.Lemmas.Hypervolume
 import SharkVerif.Lemmas.MOOInd
 import SharkVerif.Lemmas.MOOStep
+import SharkVerif.Lemmas.MOOElit
+import SharkVerif.Lemmas.MOOHv
 namespace SharkVerif.C14
 open SharkVerif.MOO SharkVerif.Pareto SharkVerif.HV
 
@@ -356,5 +358,174 @@ theorem truncation_keeps_exactly_the_selected (l : List Indiv) (mu : Nat)
 example : (stdPartition 4 [{ x := [0], pen := [], unpen := [], sel := false }, { x := [1], pen := [], unpen := [], sel := true },
       { x := [2], pen := [], unpen := [], sel := false }, { x := [3], pen := [], unpen := [], sel := true }]).map (·.x) =
     [[3], [1], [2], [0]] := by decide
+
+/-- **C14 (elitism of the generational update, no hypothesis on flags)**: for every indicator built on
+the shared `leastContributors` loop (hypervolume, epsilon, crowding), all parent and offspring
+populations with `m`-dimensional penalized fitness and every `1 ≤ mu ≤ |parents| + |offspring|`, the update of
+NSGA-II / NSGA-III / MO-CMA-ES (`insert; select; std::partition; erase`) keeps exactly the `mu`
+individuals marked by the selection (as a multiset), every survivor is marked, and no marked
+individual has a worse non-domination rank than an unmarked (discarded) one. -/
+theorem generational_update_elitist (lc : LeastFn) (hlc : LcOK lc) (parents offspring : List Indiv) (m mu : Nat)
+    (hd : ∀ p ∈ parents ++ offspring, p.pen.length = m) (hmu : 1 ≤ mu) (hn : mu ≤ parents.length + offspring.length) :
+    (genUpdate (mkIndicator lc) parents offspring mu).length = mu ∧
+    (∀ k ∈ genUpdate (mkIndicator lc) parents offspring mu, k.sel = true) ∧
+    (genUpdate (mkIndicator lc) parents offspring mu).Perm
+      ((applySelect (mkIndicator lc) (parents ++ offspring) mu).filter (·.sel)) ∧
+    (∀ i j, i < parents.length + offspring.length → j < parents.length + offspring.length →
+      ((applySelect (mkIndicator lc) (parents ++ offspring) mu).getD i default).sel = true →
+      ((applySelect (mkIndicator lc) (parents ++ offspring) mu).getD j default).sel = false →
+      ((applySelect (mkIndicator lc) (parents ++ offspring) mu).getD i default).rank ≤
+        ((applySelect (mkIndicator lc) (parents ++ offspring) mu).getD j default).rank) := by
+  have hdp : ∀ p ∈ (parents ++ offspring).map (·.pen), p.length = m := by
+    intro p hp
+    obtain ⟨q, hq, rfl⟩ := List.mem_map.mp hp
+    exact hd q hq
+  have hcount : (applySelect (mkIndicator lc) (parents ++ offspring) mu).countP (·.sel) = mu := by
+    rw [applySelect_countP _ _ mu m hd]
+    exact selection_count_modelled_indicators lc hlc _ m mu hdp hmu (by simpa using hn)
+  have htr := truncation_keeps_exactly_the_selected (applySelect (mkIndicator lc) (parents ++ offspring) mu) mu hcount
+  refine ⟨genUpdate_length _ parents offspring mu hn, htr.1, htr.2, ?_⟩
+  intro i j hi hj hsi hsj
+  have hi' : i < (parents ++ offspring).length := by simpa using hi
+  have hj' : j < (parents ++ offspring).length := by simpa using hj
+  rw [applySelect_sel _ _ _ i hi'] at hsi
+  rw [applySelect_sel _ _ _ j hj'] at hsj
+  rw [applySelect_rank _ _ _ i hi', applySelect_rank _ _ _ j hj']
+  have hlen : (fastSort ((parents ++ offspring).map (·.pen))).length = (parents ++ offspring).length := by
+    rw [fastSort_length hdp]; simp
+  have hsl := select_length (mkIndicator lc ((parents ++ offspring).map (·.pen))) (fastSort ((parents ++ offspring).map (·.pen))) mu
+  apply selection_rank_monotone _ _ mu i j (by omega) (by omega) hsi
+  rw [List.getD_eq_getElem?_getD, List.getElem?_eq_getElem (by omega)] at hsj ⊢
+  simpa using hsj
+
+example : (genUpdate (mkIndicator epsLeast) [{ x := [1], pen := [1, 2], unpen := [1, 2] }, { x := [2], pen := [2, 1], unpen := [2, 1] }]
+    [{ x := [3], pen := [3, 3], unpen := [3, 3] }] 2).map (fun p => (p.x, p.rank, p.sel)) = [([1], 1, true), ([2], 1, true)] := by decide
+
+/-! ## steady-state hypervolume monotonicity, composed end to end -/
+
+/-- **C14 (steady-state hypervolume never decreases — end to end, any number of objectives)**: let
+`lc` be a `leastContributor` routine that returns valid positions and, on fronts below the fixed
+reference point `r`, a position of minimal hypervolume contribution.  Then for every parent
+population of `mu ≥ 1` individuals and every offspring whose penalized fitness vectors are
+`m`-dimensional and strictly below `r`, the update `SMSEMOA::updatePopulation` (append the offspring,
+`IndicatorBasedSelection` with the indicator built on `lc`, replace the first unselected parent) never decreases the
+dominated hypervolume `hvSpec` of the population. -/
+theorem steady_update_hv_monotone_partial (m : Nat) (r : Pt) (hr : r.length = m) (lc : LeastFn) (hlc : LcOK lc)
+    (hleast : LeastContribOn r lc) (parents : List Indiv) (o : Indiv) (mu : Nat)
+    (hmu : 1 ≤ mu) (hlen : parents.length = mu)
+    (hd : ∀ p ∈ parents ++ [o], p.pen.length = m) (hbelow : ∀ p ∈ parents ++ [o], ltAll p.pen r = true) :
+    hvSpec (parents.map (·.pen)) r ≤ hvSpec ((steadyUpdate (mkIndicator lc) parents o mu).map (·.pen)) r := by
+  have hpts : (parents ++ [o]).map (·.pen) = parents.map (·.pen) ++ [o.pen] := by simp
+  have hdp : ∀ p ∈ parents.map (·.pen) ++ [o.pen], p.length = m := by
+    intro p hp; rw [← hpts] at hp
+    obtain ⟨q, hq, rfl⟩ := List.mem_map.mp hp; exact hd q hq
+  have hbp : ∀ p ∈ parents.map (·.pen) ++ [o.pen], ltAll p r = true := by
+    intro p hp; rw [← hpts] at hp
+    obtain ⟨q, hq, rfl⟩ := List.mem_map.mp hp; exact hbelow q hq
+  have hn : (parents.map (·.pen) ++ [o.pen]).length = mu + 1 := by simp [hlen]
+  have hne : parents.map (·.pen) ++ [o.pen] ≠ [] := by simp
+  have hall_pen := applySelect_map_pen (mkIndicator lc) (parents ++ [o]) mu
+  have hall_len := applySelect_length (mkIndicator lc) (parents ++ [o]) mu
+  have htake : ((applySelect (mkIndicator lc) (parents ++ [o]) mu).take parents.length).map (·.pen) = parents.map (·.pen) := by
+    rw [List.map_take, hall_pen, hpts, List.take_left' (by simp)]
+  unfold steadyUpdate
+  simp only
+  split
+  · rcases replaceFirstUnselected_cases
+      ((applySelect (mkIndicator lc) (parents ++ [o]) mu).getD parents.length default)
+      ((applySelect (mkIndicator lc) (parents ++ [o]) mu).take parents.length) with h | ⟨A, p, B, h1, h2, h3⟩
+    · rw [h, htake]; exact Nat.le_refl _
+    · rw [h3]
+      -- the discarded individual has index `A.length`
+      have hAlen : A.length < parents.length := by
+        have := congrArg List.length h1
+        simp [hall_len] at this
+        omega
+      have hi' : A.length < (parents ++ [o]).length := by simp; omega
+      have hpi : (applySelect (mkIndicator lc) (parents ++ [o]) mu).getD A.length default = p := by
+        have hx : (applySelect (mkIndicator lc) (parents ++ [o]) mu).getD A.length default =
+            ((applySelect (mkIndicator lc) (parents ++ [o]) mu).take parents.length).getD A.length default := by
+          simp [List.getD_eq_getElem?_getD, hAlen]
+        rw [hx, h1]; simp [List.getD_eq_getElem?_getD]
+      have hselfalse := applySelect_sel (mkIndicator lc) (parents ++ [o]) mu A.length hi'
+      rw [hpi, h2, hpts] at hselfalse
+      have hflen := select_length (mkIndicator lc (parents.map (·.pen) ++ [o.pen]))
+        (fastSort (parents.map (·.pen) ++ [o.pen])) mu
+      rw [fastSort_length hdp, hn] at hflen
+      have hfalse : (select (mkIndicator lc (parents.map (·.pen) ++ [o.pen]))
+          (fastSort (parents.map (·.pen) ++ [o.pen])) mu).getD A.length true = false := by
+        rw [List.getD_eq_getElem?_getD, List.getElem?_eq_getElem (by omega)]
+        rw [List.getD_eq_getElem?_getD, List.getElem?_eq_getElem (by omega)] at hselfalse
+        simpa using hselfalse.symm
+      have hcases := select_unselected_cases _ (mkIndicator_ok lc hlc _) (fastSort (parents.map (·.pen) ++ [o.pen])) mu hmu
+        (by rw [fastSort_length hdp, hn])
+        (by
+          intro j hj
+          rw [fastSort_length hdp] at hj
+          rw [rankAt_fastSort hdp j hj]; exact rankSpec_pos _ _)
+        A.length (by rw [fastSort_length hdp, hn]; omega) hfalse
+      have hiP : A.length < (parents.map (·.pen) ++ [o.pen]).length := by rw [hn]; omega
+      have hmono := steady_state_hv_monotone m (parents.map (·.pen)) o.pen r A.length hr
+        (fun p hp => hdp p (List.mem_append.mpr (Or.inl hp))) (hdp o.pen (by simp)) hiP
+        (by
+          rcases hcases with h2r | ⟨hall1, hmem⟩
+          · left
+            rw [rankAt_fastSort hdp A.length hiP] at h2r
+            rcases rankSpec_cases (parents.map (·.pen) ++ [o.pen]) ((parents.map (·.pen) ++ [o.pen])[A.length]) with h1r | ⟨q, hq, hdq, _⟩
+            · omega
+            · obtain ⟨j, hj, e⟩ := List.getElem_of_mem hq
+              refine ⟨j, hj, ?_, ?_⟩
+              · intro hji
+                subst hji
+                rw [← e, dominates_irrefl] at hdq
+                cases hdq
+              · rw [e]
+                simp only [dominates, Bool.and_eq_true] at hdq
+                exact hdq.1
+          · right
+            rw [fastSort_length hdp] at hmem hall1
+            rw [mkIndicator_single_front lc hlc _ hne] at hmem
+            simp only [List.mem_singleton] at hmem
+            rw [hmem]
+            have hnd : ∀ a ∈ parents.map (·.pen) ++ [o.pen], ∀ b ∈ parents.map (·.pen) ++ [o.pen], dominates a b = false := by
+              intro a ha b hb
+              obtain ⟨j, hj, e⟩ := List.getElem_of_mem hb
+              have h1 := hall1 j hj
+              rw [rankAt_fastSort hdp j hj, e] at h1
+              exact (rankSpec_eq_one_iff _ _).mp h1 a ha
+            have := hleast _ hne (fun p hp => by rw [hdp p hp, hr]) hbp hnd (parents.map (·.pen)).length (by simp)
+            exact this)
+      refine Nat.le_trans hmono (Nat.le_of_eq (hvSpec_perm ?_))
+      -- the surviving population is a permutation of `(P ++ [o]).eraseIdx i`
+      have hPsplit : parents.map (·.pen) = A.map (·.pen) ++ p.pen :: B.map (·.pen) := by
+        rw [← htake, h1]; simp
+      have hlast : ((applySelect (mkIndicator lc) (parents ++ [o]) mu).getD parents.length default).pen = o.pen := by
+        have h4 := congrArg (fun l => l.getD parents.length []) hall_pen
+        simp only [hpts] at h4
+        have hlt : parents.length < (applySelect (mkIndicator lc) (parents ++ [o]) mu).length := by rw [hall_len]; simp
+        simp only [List.getD_eq_getElem?_getD, List.getElem?_map, List.getElem?_eq_getElem hlt, Option.map_some,
+          Option.getD_some] at h4
+        rw [List.getD_eq_getElem?_getD, List.getElem?_eq_getElem hlt]
+        simp only [Option.getD_some]
+        rw [h4]
+        simp
+      rw [hPsplit]
+      simp only [List.map_append, List.map_cons, hlast]
+      have he : (A.map (·.pen) ++ p.pen :: B.map (·.pen) ++ [o.pen]).eraseIdx A.length =
+          A.map (·.pen) ++ (B.map (·.pen) ++ [o.pen]) := by
+        rw [List.append_assoc, List.eraseIdx_append_of_length_le (by simp)]
+        simp
+      rw [he]
+      exact (List.perm_append_comm (l₁ := B.map (·.pen)) (l₂ := [o.pen])).append_left _
+  · rw [htake]; exact Nat.le_refl _
+
+
+/-- non-vacuity / composition: SMS-EMOA with the specification-level hypervolume indicator never
+decreases the dominated hypervolume, for every number of objectives -/
+theorem steady_update_hv_monotone_spec_indicator (m : Nat) (r : Pt) (hr : r.length = m)
+    (parents : List Indiv) (o : Indiv) (mu : Nat) (hmu : 1 ≤ mu) (hlen : parents.length = mu)
+    (hd : ∀ p ∈ parents ++ [o], p.pen.length = m) (hbelow : ∀ p ∈ parents ++ [o], ltAll p.pen r = true) :
+    hvSpec (parents.map (·.pen)) r ≤ hvSpec ((steadyUpdate (mkIndicator (specLeast r)) parents o mu).map (·.pen)) r :=
+  steady_update_hv_monotone_partial m r hr _ (specLeast_ok r).1 (specLeast_ok r).2 parents o mu hmu hlen hd hbelow
 
 end SharkVerif.C14
